@@ -98,7 +98,7 @@ def _drop_zeros(ctx, rep, cl, body4):
             pat_t, tmpl, src = nsz[0], nsz[1], nsz[2]
             pts = ctx.G.types_of(pat_t, f)
             is_dz = pat_t[0] == "attr" and pat_t[2] == "_DROP_ZEROS_PATTERN"
-            ok2 = is_dz and tmpl == ("const", r"\1.\2.\3.\4") and src == ("param", f.params[1])
+            ok2 = is_dz and tmpl == ("const", r"\1.\2.\3.\4") and src == ("param", f.mparams[1])
         rep.ob(cl + ".ipv4-drop-zeros-call", f.name, ok2, "argument is %s; expected _DROP_ZEROS_PATTERN.sub(r'\\1.\\2.\\3.\\4', addr_str)" % show(arg), loc, key=cl + ".ipv4-drop-zeros-call|make_addr")
     if not isinstance(dz, Rx):
         rep.fail(cl + ".ipv4-drop-zeros", "_DROP_ZEROS_PATTERN", "constant does not fold to a pattern", loc)
@@ -340,7 +340,7 @@ def _plumbing(ctx, rep, cl):
     f = m.method(m.v6, "make_addr")
     for path in ctx.A.paths(f).paths:
         r = path.returned()
-        ok = M.is_call(r) and ctx.G.types_of(r, f) == {("xinst", "ipaddress.IPv6Address")} and r[2] == (("param", f.params[1]),)
+        ok = M.is_call(r) and ctx.G.types_of(r, f) == {("xinst", "ipaddress.IPv6Address")} and r[2] == (("param", f.mparams[1]),)
         rep.ob(cl + ".ipv6-parse-call", f.name, ok, "IPv6 make_addr returns %s; expected ipaddress.IPv6Address(addr_str)" % show(r), where(f))
     # no per-match state besides the memo
     from .checks_ip import _no_cross_state
@@ -446,7 +446,7 @@ def c11(ctx, rep):
         raise AnalysisError("anchor AsNumberAnonymizer._generate_as_number_replacement not found")
     rep.analysed(f)
     fp = A.paths(f)
-    num_p = ("param", f.params[1])
+    num_p = ("param", f.mparams[1])
     n_int = ("call", ("builtin", "int"), (num_p,), ())
     returns = [pp for pp in fp.paths if pp.kind == "return" and not (pp.returned() == ("const", None) and not any(t[0] == "inloop" for t, _pol, _n in pp.conds))]
     falls = [pp for pp in fp.paths if pp.kind == "fall" or (pp.kind == "return" and pp not in returns)]
@@ -562,7 +562,7 @@ def c11(ctx, rep):
     rep.ob("C11.map-writers", cls.name, len(writers) == 1 and ok_w, "writers of the map: %s" % [g.name for g, e in writers], loc_cls)
     if init is not None:
         rep.analysed(init)
-        nums = ("param", init.params[1])
+        nums = ("param", init.mparams[1])
         for path in A.paths(init).paths:
             if not path.feasible():
                 continue
@@ -576,7 +576,7 @@ def c11(ctx, rep):
     if fa is not None:
         for path in A.paths(fa).paths:
             r = path.returned()
-            ok = r == ("sub", ("attr", SELF, "as_num_map"), ("param", fa.params[1]))
+            ok = r == ("sub", ("attr", SELF, "as_num_map"), ("param", fa.mparams[1]))
             rep.ob("C11.pure-lookup", "anonymize", ok, "anonymize returns %s; expected the map entry of its argument" % show(r), where(fa))
     # 5. template analysis
     if len(found) != 1:
@@ -623,7 +623,7 @@ def c11(ctx, rep):
     # 6. plumbing
     fas = p.find_function("anonymize_as_numbers")
     rep.analysed(fas)
-    ap, lp = ("param", fas.params[0]), ("param", fas.params[1])
+    ap, lp = ("param", fas.mparams[0]), ("param", fas.mparams[1])
     for path in A.paths(fas).paths:
         r = path.returned()
         w = where(fas)
@@ -660,7 +660,7 @@ def c11(ctx, rep):
     for cs in G.by_owner.get(f_fa.qualname, []):
         if cls in cs.classes() and init is not None:
             bnd = bind_args(cs.term, init, 1) or {}
-            rep.ob("C11.wiring", "FileAnonymizer.__init__", bnd.get(init.params[1]) == ("param", "as_numbers") and bnd.get("salt") == ("attr", SELF, "salt"),
+            rep.ob("C11.wiring", "FileAnonymizer.__init__", bnd.get(init.mparams[1]) == ("param", "as_numbers") and bnd.get("salt") == ("attr", SELF, "salt"),
                    "AsNumberAnonymizer(%s)" % {k: show(v) for k, v in bnd.items()}, cs.where, key="C11.wiring|FileAnonymizer.__init__")
     swallowed = [pth.describe()[-120:] for pth in A.paths(f_fa).paths if pth.feasible() and pth.kind != "raise" and any(t[0] == "except" for t, pol in pth.atoms())]
     rep.ob("C11.stage-failure-not-swallowed", "FileAnonymizer.__init__", not swallowed, "the constructor catches an exception and carries on (%s): an invalid entry in the AS-number list would silently disable the stage and leave every listed number in the output" % swallowed[:2], where(f_fa), key="C11.stage-failure-not-swallowed|FileAnonymizer.__init__")
